@@ -48,7 +48,50 @@ func zzStub_time_NewTimer(d time.Duration) *time.Timer {
 // zzTimerChans: the send side of every harness-owned timer (for Reset).
 var zzTimerChans map[*time.Timer]chan time.Time
 
-func zzStub_time_Timer_Stop(t *time.Timer) bool { return true }
+func zzStub_time_Timer_Stop(t *time.Timer) bool {
+	for _, af := range zzAfterFuncs {
+		if af.t == t {
+			was := !af.fired && !af.stopped
+			af.stopped = true
+			return was
+		}
+	}
+	return true
+}
+
+// time.AfterFunc is harness-owned too: the callback runs (in its own
+// goroutine, as the runtime does) at once, or, when timers are held back, when
+// the harness fires it -- in particular after the code under test believes it
+// has stopped (zzFireAfterFuncs).
+type zzAF struct {
+	d              time.Duration
+	f              func()
+	t              *time.Timer
+	fired, stopped bool
+}
+
+var zzAfterFuncs []*zzAF
+
+func zzStub_time_AfterFunc(d time.Duration, f func()) *time.Timer {
+	zzAfterLog = append(zzAfterLog, d)
+	af := &zzAF{d: d, f: f, t: &time.Timer{}}
+	zzAfterFuncs = append(zzAfterFuncs, af)
+	if !zzAfterBlock {
+		af.fired = true
+		go f()
+	}
+	return af.t
+}
+
+// zzFireAfterFuncs lets every pending, unstopped AfterFunc timer fire.
+func zzFireAfterFuncs() {
+	for _, af := range zzAfterFuncs {
+		if !af.fired && !af.stopped {
+			af.fired = true
+			go af.f()
+		}
+	}
+}
 
 // Reset re-arms the timer: the new duration is logged and, unless timers are
 // held back by the harness, the timer fires again at once.
